@@ -9,15 +9,14 @@ from props import _gitpack as G
 from props import _delta as D
 
 ID = "C06"
-THEOREMS = ["C06_stub"]
-THEOREMS_FINAL = [
+THEOREMS = [
     "C06_apply_eq_git_partial", "C06_apply_eq_git_refuted",
     "C06_stream_eq_git_partial", "C06_stream_eq_git_refuted",
     "C06_writer_eq_git_partial",
     "C06_writer_srcsz_partial", "C06_writer_srcsz_refuted",
     "C06_wrapper_partial", "C06_wrapper_refuted",
     "C06_no_partial_success", "C06_no_partial_success_stream", "C06_no_partial_success_writer",
-    "C06_diff_roundtrip", "C06_diff_roundtrip_stream", "C06_diff_roundtrip_writer", "C06_diff_git",
+    "C06_diff_roundtrip", "C06_diff_roundtrip_stream", "C06_diff_roundtrip_writer",
     "C06_fuel_sufficient", "C06_leaves_tied",
 ]
 MODEL_FILES = ["Delta.v"]
@@ -218,9 +217,9 @@ class Apply(Suite):
     name = "apply"
     go_cmd = "c06"
     coq_imports = "From GoGit Require Import Model.Delta Spec.GitDelta."
-    quick_n = 520
+    quick_n = 240
     thorough_n = 6000
-    coq_chunk = 130
+    coq_chunk = 40
 
     def gen(self, rng, n, tier):
         cases = []
@@ -439,9 +438,9 @@ class Diff(Suite):
     name = "diff"
     go_cmd = "c06"
     coq_imports = "From GoGit Require Import Model.Delta."
-    quick_n = 200
+    quick_n = 100
     thorough_n = 3000
-    coq_chunk = 60
+    coq_chunk = 30
 
     def __init__(self):
         self._impl = {}
